@@ -1,23 +1,10 @@
 //! vh-core: conformance harness binding the TLA+ specification to the real arkworks code.
 //!   vh-core replay <machine> --cfg <id> [--big]      TLC transition lines on stdin -> report JSON
 //!   vh-core record <machine> --cfg <id> --seed S --n N --out FILE   real executions -> ndjson trace
-mod bigint;
-mod cfgs;
-mod literal;
-mod gen_lit;
-mod container;
-mod mle;
-mod msm;
-mod ser;
-mod poly;
-pub mod curve;
-mod elem;
-mod field;
-pub mod gen_toy;
-pub mod gen_zoo;
-mod util;
 
 use serde_json::json;
+use vh_core::*;
+use vh_core::{with_big_curve, with_big_field, with_toy_curve, with_toy_field, with_toy_prime_field, with_zoo_config};
 use std::io::BufReader;
 
 fn arg(args: &[String], name: &str) -> Option<String> {
@@ -103,6 +90,13 @@ fn main() {
             with_zoo_config!(cfg.as_str(), literal_replay(cfg.as_str(), it))
         }
         ("replay", "bigint") => { let nl: usize = cfg.parse().expect("--cfg <limbs>"); with_limbs!(nl, replay_bigint()) }
+        ("record", "pairing") => {
+            let seed: u64 = arg(&args, "--seed").and_then(|s| s.parse().ok()).unwrap_or(1);
+            let n: usize = arg(&args, "--n").and_then(|s| s.parse().ok()).unwrap_or(200);
+            let out = arg(&args, "--out").expect("--out");
+            let mut f = std::io::BufWriter::new(std::fs::File::create(out).expect("create trace file"));
+            match cfg.as_str() { "bls12_381" => pairing::record::<ark_test_curves::bls12_381::Bls12_381>("bls12_381", seed, n, &mut f), other => panic!("unknown engine {other}") }
+        }
         ("record", "curve") => {
             let seed: u64 = arg(&args, "--seed").and_then(|s| s.parse().ok()).unwrap_or(1);
             let n: usize = arg(&args, "--n").and_then(|s| s.parse().ok()).unwrap_or(1000);
